@@ -95,7 +95,7 @@ end Mat
 namespace Polynome
 
 theorem init_ok {a : Mat} {cs : List Rat} {p : Polynome} (h : init a cs = .ok p) :
-    p = ⟨a, cs⟩ ∧ cs ≠ [] ∧ a.nCol = a.nRow := by
+    p = ⟨a, cs⟩ ∧ cs ≠ [] ∧ a.nCol = a.nRow ∧ a.isNull = false := by
   unfold init at h
   split at h
   · cases h
@@ -103,9 +103,15 @@ theorem init_ok {a : Mat} {cs : List Rat} {p : Polynome} (h : init a cs = .ok p)
     · cases h
     · split at h
       · cases h
-      · rename_i h1 _ h3
-        refine ⟨by cases h; rfl, ?_, (not_not.mp h3).symm⟩
+      · rename_i h1 h2 h3
+        refine ⟨by cases h; rfl, ?_, (not_not.mp h3).symm, by simpa using h2⟩
         intro e; subst e; simp at h1
+
+theorem init_eq (a : Mat) (cs : List Rat) (hne : cs ≠ []) (hsq : a.nCol = a.nRow) (hnn : a.isNull = false) :
+    init a cs = .ok ⟨a, cs⟩ := by
+  unfold init
+  have h1 : cs.isEmpty = false := by cases cs <;> simp_all
+  simp [h1, hnn, hsq.symm]
 
 theorem powerSum_nRow (m : Mat) (cs : List Rat) (k : Nat) : (powerSum m cs k).nRow = m.nRow := by
   cases cs with
